@@ -121,7 +121,7 @@ def _ser_out(o):
     return struct.pack("<Q", o["value"]) + compact(len(o["script"])) + o["script"]
 
 
-def legacy(tx, idx, script_code, hash_type):
+def legacy(tx, idx, script_code, hash_type, single_sha=False):
     """script_code: the executing script from the last executed OP_CODESEPARATOR on, with the
     signature already FindAndDelete'd by the caller"""
     script_code = remove_codeseparators(script_code)
@@ -145,6 +145,8 @@ def legacy(tx, idx, script_code, hash_type):
         outs = [_ser_out(o) for o in tx["outs"]]
     pre = (struct.pack("<I", tx["version"] & 0xFFFFFFFF) + compact(len(ins)) + b"".join(ins) + compact(len(outs))
            + b"".join(outs) + struct.pack("<I", tx["locktime"]) + struct.pack("<I", hash_type & 0xFFFFFFFF))
+    if single_sha:
+        return int.from_bytes(hashlib.sha256(pre).digest(), "big")
     return int.from_bytes(dsha256(pre), "big")
 
 
